@@ -61,7 +61,7 @@ RULE = ('One case = (a) "text torture": a generated structure whose state names,
         'subclasses of the model classes; round trips through files.')
 ASSUMPTIONS = ['characters YAML cannot carry without escaping rules of its own (C0/C1 controls other than \\n \\t, U+2028/2029, BOM, '
                'surrogates, \\r) are excluded; event names carry no surrounding whitespace; code strings are non-empty after stripping']
-REQUIRED_COUNTERS = ['roundtrips_after_editing_an_exported_statechart', 'charts_with_user_subclasses', 'roundtrips_through_existing_file', 'yaml_1_1_document_imported_before', 'roundtrips', 'fields_compared', 'eq_checks', 'second_roundtrips', 'behaviour_steps_compared',
+REQUIRED_COUNTERS = ['failed_exports_before_a_valid_one', 'roundtrips_after_editing_an_exported_statechart', 'charts_with_user_subclasses', 'roundtrips_through_existing_file', 'yaml_1_1_document_imported_before', 'roundtrips', 'fields_compared', 'eq_checks', 'second_roundtrips', 'behaviour_steps_compared',
                      'shipped_roundtrips', 'charts_with_long_nonascii', 'charts_with_noncontiguous_transitions']
 TIERS = dict(quick=dict(steps=25, gen=dict(max_states=10, max_depth=4, max_trans=12)),
              thorough=dict(steps=45, gen=dict(max_states=16, max_depth=5, max_trans=22)))
@@ -265,8 +265,25 @@ def torture_names(rnd, ch):
 FILE = [None]
 
 
+def failed_export_first(acc):
+    """An export that cannot succeed (a priority the YAML dumper cannot represent) is attempted and its error caught: the
+    exports that follow in the same process are not its business."""
+    from fractions import Fraction
+    from sismic.model import BasicState, CompoundState, Statechart, Transition
+    bad = Statechart('unexportable')
+    bad.add_state(CompoundState('root', initial='a'), None)
+    bad.add_state(BasicState('a'), 'root')
+    bad.add_transition(Transition('a', None, event='e', priority=Fraction(1, 2)))
+    try:
+        export_to_yaml(bad)
+    except Exception:       # noqa
+        acc.count('failed_exports_before_a_valid_one')
+
+
 def roundtrip(acc, sc, wit):
     via_file = (acc.counters.get('roundtrips', 0) % 4 == 3)
+    if acc.counters.get('roundtrips', 0) % 9 == 4:
+        failed_export_first(acc)
     try:
         if via_file:
             # documented filepath parameters, on a path that already holds an earlier (possibly longer) export
